@@ -114,9 +114,11 @@ func VerifHarness_C16_O4() {
 		if err := st.SetEvent(ev); err == nil {
 			target.fdIndex = nv
 			verifReach("update-acknowledged")
-		} else {
-			verifReach("update-refused-with-an-error")
 		}
+		// (an update the store refuses with an error leaves the record as it was:
+		// target.fdIndex keeps the old value.  Before fix 7a47971 the update of an
+		// event that had left its creator's window was refused; it is now written
+		// to the database.)
 	}
 	// blocks 0..5, frames and rounds under the same indexes; block 1 updated in place
 	nb := 6
